@@ -41,3 +41,16 @@ Example C11_example : (Rpower (1 ^ 1 * 4) 1 * Rpower (1 * / 4) 1 = 1)%R.
 Proof.
   rewrite !Rpower_1 by lra. lra.
 Qed.
+
+(* the two homogeneity facts C11_invariant rests on, for the Symanzik polynomials the model
+   computes (Proofs/SymBridge.v ties Lm and Vpoly to compute_l_matrix / compute_v_polynomial):
+   U(s x) = s^L U(x) and V(s x) = s V(x), any real closed field, any sizes *)
+From mathcomp Require Import all_ssreflect all_algebra.
+From MT Require Import Proofs.Symanzik.
+Theorem C11_homogeneity : forall (F : rcfType) (nE nL nD : nat) (S : 'M[F]_(nE, nL)) (x m2 : 'rV[F]_nE)
+    (P : 'M[F]_(nE, nD)) (s : F),
+  s != 0%R -> Lm S x \in unitmx ->
+  (\det (Lm S (s *: x)) = s ^+ nL * \det (Lm S x))%R /\
+  (Vpoly S (s *: x) m2 P = s * Vpoly S x m2 P)%R.
+Proof. move=> F nE nL nD S x m2 P s Hs HL; split; [exact: U_homogeneous | exact: V_homogeneous]. Qed.
+Print Assumptions C11_homogeneity.
